@@ -226,7 +226,7 @@ N('A-series-reindex-freeze-redundant', ['C01'], 'type_blocks.py', 'TypeBlocks._s
   'b.flags.writeable = False', 'pass')
 
 # ---------------------------------------------------------------------------------- C / D (C09)
-B('C-rename-share-blocks', ['C09'], 'frame.py', 'Frame.rename',
+B('C-rename-share-blocks', ['C09', 'C03'], 'frame.py', 'Frame.rename',
   'self._blocks.copy()', 'self._blocks', 'C.own-handoff', 'Frame.rename')
 B('C-group-own-go-columns', ['C09'], 'frame.py', 'Frame._axis_group_iloc_items',
   'own_columns=self.STATIC, # own if static', 'own_columns=True,', 'C.own-handoff', '_axis_group_iloc_items')
@@ -568,6 +568,10 @@ N('O-continue-with-advance', ['C03'], 'type_blocks.py', 'TypeBlocks._assign_from
 B('F1-resolver-first-member-only', ['C07', 'C08'], 'type_blocks.py', 'TypeBlocks._assign_from_iloc_by_blocks',
   'assigned_dtype = resolve_dtype_iter(\n                            chain((a.dtype for a in assigned_blocks), (b.dtype,)))',
   'assigned_dtype = resolve_dtype(assigned_blocks[0].dtype, b.dtype)', 'F1.resolver-coverage', '_assign_from_iloc_by_blocks')
+B('F1-dtype-captured-before-reindex', ['C07', 'C08'], 'series.py', 'SeriesAssign.__call__',
+  "                    fill_value=fill_value).values\n\n        if value.__class__ is np.ndarray:", "                    fill_value=fill_value).values\n            value_dtype = value.dtype\n            value = value\n\n        if value.__class__ is np.ndarray and False:", 'F1.', 'SeriesAssign.__call__')
+B('F1-dtype-captured-before-reindex-2', ['C07', 'C08'], 'series.py', 'SeriesAssign.__call__',
+  "        if isinstance(value, Series):\n", "        if isinstance(value, Series):\n            value_dtype = value.dtype\n", 'F1.dtype-captured', 'SeriesAssign.__call__')
 N('F1-resolver-chain-swapped', ['C07', 'C08'], 'type_blocks.py', 'TypeBlocks._assign_from_iloc_by_blocks',
   'chain((a.dtype for a in assigned_blocks), (b.dtype,))', 'chain((b.dtype,), (a.dtype for a in assigned_blocks))')
 
